@@ -34,7 +34,10 @@ META = {
              "Streamable HTTP (SSE body) and legacy SSE hand the common decoder exactly the server's message texts in the server's "
              "order (C15_carrier_independent; JSON bodies under the stated json.loads contract, C15_http_json_transcript); the legacy "
              "carrier's sender/event-stream race preserves the order of notifications and response for every sequential conversation and "
-             "every position of the 202 acknowledgement (C15_legacy_order). The receive-path models are those of C05/C11/C12, tied to the "
+             "every position of the 202 acknowledgement (C15_legacy_order); the three per-message decoders the carriers use in the code "
+             "(parse_message; JSONRPCMessage.model_validate; the same plus the HTTP non-message filter - Model/Envelope.v, tied by C02) "
+             "deliver the same view on EVERY valid JSON-RPC message whose result is an object, under both back ends "
+             "(C15_decoders_agree; refuted for non-object results: recorded finding). The receive-path models are those of C05/C11/C12, tied to the "
              "code there; here one generated conversation is run over the four real carriers and a carrier-free reference, and the "
              "extracted, proved checker agree_ok judges transcripts, helper outcomes and outbound requests. PARTIAL: the per-message "
              "decoders (json.loads + envelope validation, per carrier) and httpx are outside the model; their agreement is what the "
@@ -49,7 +52,7 @@ META = {
     "design_ref": "DESIGN.md section 6 (C15)",
 }
 GEN = []
-TARGETS = ["Model/Carrier", "Spec/C15", "Proofs/Carrier", "Props/C15", "Drv/C15"]
+TARGETS = ["Model/Carrier", "Spec/C15", "Proofs/Carrier", "Proofs/CarrierDecode", "Props/C15", "Drv/C15"]
 TRUSTED = [
     "Coq 8.16.1 kernel (coqc); coqchk re-check in the thorough tier; vm_compute only in the non-vacuity Example",
     "axioms: none (every C15 theorem prints 'Closed under the global context')",
@@ -703,9 +706,16 @@ def judge_result(ctx, res, case, canon, ref, runs):
     if ok:
         return True
     before = len(ctx.spec_fail)
+    non_object = any("result" in st["answer"] and not isinstance(st["answer"]["result"], dict)
+                     for st in case["conversation"]["steps"])
     for n in runs:
         r = runs[n]
-        if r["transcript"] != canon:
+        if non_object and n != "stdio" and (r["transcript"] != canon or r["outcomes"] != ref["outcomes"]):
+            # C15_decoders_agree_on_every_valid_message_refuted: the unified message class refuses a non-object result
+            ctx.spec_violation("non-object-result-delivered-by-stdio-only", case,
+                               {"carrier": n, "canonical": canon[:8], "observed": r["transcript"][:8],
+                                "reference_outcomes": ref["outcomes"], "outcomes": r["outcomes"]})
+        elif r["transcript"] != canon:
             ctx.spec_violation(classify(n, canon, r["transcript"], "transcript"), case,
                                {"carrier": n, "canonical": canon[:8], "observed": r["transcript"][:8], "crash": r.get("crash")})
         elif r["outcomes"] != ref["outcomes"]:
@@ -861,6 +871,12 @@ def explore(ctx, drv):
         st["call"]["id"] = rid
         st["enc"] = gen_enc(rng, len(st["notifs"]) + 1)
         items.append(({"steps": [st]}, "id-shape"))
+    # valid JSON-RPC outside MCP: a result that is not a JSON object (the refuted half of C15_decoders_agree)
+    for res_ in (None, 5, "s", [1, None], True):
+        st = gen_step(rng, "raw")
+        st["answer"] = {"result": res_}
+        st["enc"] = gen_enc(rng, len(st["notifs"]) + 1)
+        items.append(({"steps": [st]}, "non-object-result"))
     for i in range(0, len(items), 100):
         run_cases(ctx, drv, items[i:i + 100])
 
